@@ -402,6 +402,49 @@ def lifecycle(rep, u, vals):
                 work.extend(succ)
             return direct[0][0] in seen
         ok = reach_direct(4, 6, 10) and not reach_direct(4, 7, 10) and not reach_direct(11, 1, 10)
+
+        # the same window test guards the scheduling of the first I/O through the pool, for each of the three handlers that
+        # transfer into an io buffer (stream, file, datagram receiver): no registration call is reached with a bad window
+        sched = {pos[0] for pos, root, c, ps in fx.calls() if (c.get("fn") or "").startswith(("tpt_ev_add", "tpt_ev_enable", "tpt_ev_q_", "tp_task_enable", "tp_task_restart", "tp_task_handler"))}
+
+        def reach_sched(handler, off, tr, size):
+            fields = {"offset": off, "transfer_size": tr, "size": size}
+            hv = {"tp_task_sr_handler": 0x111, "tp_task_rw_handler": 0x222, "tp_task_pkt_rcvr_handler": 0x333}
+            seen, work = set(), [fx.entry]
+            while work:
+                b = work.pop()
+                if b in seen:
+                    continue
+                seen.add(b)
+                blk = fx.blocks[b]
+                succ = [s_ for s_ in blk.rsucc() if s_ is not None]
+                c = blk.cond
+                if c is not None and len(blk.succ) == 2:
+                    env = {}
+                    for y, _ in walk(c):
+                        if y.get("k") == "mem" and y["f"] in fields and "buf" in key(y["b"]):
+                            env[id(y)] = fields[y["f"]]
+                        elif y.get("k") == "mem" and y["f"] == "cb_func":
+                            env[id(y)] = hv[handler]
+                        elif core.is_ref(y) and y.get("n") in hv:
+                            env[id(y)] = hv[y["n"]]
+                        elif core.is_ref(y) and y.get("dk") == "parm" and (fx.unit.type(y["t"]) or {}).get("k") == "ptr" and "io_buf" in fx.unit.tstr(y["t"]):
+                            env[id(y)] = 0x5000
+                    if env:
+                        try:
+                            v = r_mpt.eval_expr(c, env)
+                            succ = [blk.succ[0] if v else blk.succ[1]]
+                        except r_mpt.Unknown:
+                            pass
+                work.extend(succ)
+            return bool(seen & sched)
+        for hnd in ("tp_task_sr_handler", "tp_task_rw_handler", "tp_task_pkt_rcvr_handler"):
+            good = reach_sched(hnd, 4, 6, 10)
+            bad_w = reach_sched(hnd, 4, 7, 10) or reach_sched(hnd, 16, 64, 32) or reach_sched(hnd, 11, 1, 10)
+            (rep.proved if good and not bad_w else rep.violated)(
+                "R-BOUND", fx, "window-validated:%s" % hnd, "a task of %s is scheduled only with a window inside its buffer" % hnd,
+                "" if good and not bad_w else ("a fitting window is refused" if not good else
+                                               "offset 16 + transfer_size 64 in a buffer of 32 is scheduled: recvfrom writes 64 bytes at offset 16 of the 32-byte buffer"))
     (rep.proved if ok else rep.violated)("R-BOUND", fx, "window-validated", "the immediate first transfer happens only if offset + transfer size <= buffer size "
                                          "(an exactly fitting window is accepted)")
 
